@@ -562,7 +562,7 @@ type raceRep struct {
 	text string
 }
 
-var raceFuncRe = regexp.MustCompile(`^\s+(github\.com/jcmturner/gokrb5/[^\s(]+|verif/[^\s(]+)\(`)
+var raceFuncRe = regexp.MustCompile(`^\s+((?:github\.com/jcmturner/gokrb5/|verif/)\S+?)\(\)\s*$`)
 
 // collectRace parses GORACE log files: one fingerprint per unordered pair of innermost
 // gokrb5 access-site functions (line numbers stripped).
@@ -601,6 +601,21 @@ func collectRace(wdir string) map[string]raceRep {
 				sites = append(sites, "?")
 			}
 			sort.Strings(sites)
+			// Client.Destroy replaces cl.Credentials without synchronisation: every race with Destroy on one of the two
+			// access stacks is that one defect, whatever the other access is
+			if strings.Contains(blk, "client.(*Client).Destroy()") {
+				fp := "race|client.(*Client).Destroy|concurrent-use-of-client"
+				r := out[fp]
+				r.n++
+				if r.text == "" {
+					if len(blk) > 4000 {
+						blk = blk[:4000]
+					}
+					r.text = blk
+				}
+				out[fp] = r
+				continue
+			}
 			if sites[0] == "?" && sites[1] == "?" {
 				// race entirely inside the harness or a dependency: harness bug, not a verdict
 				fp := "race|harness-only"
